@@ -200,11 +200,24 @@ pub fn run(cases_path: &str, out_path: &str) -> i32 {
                 "batch_before_invalid" => json!([read_a, target_call, {"foo": "bar"}, 1, read_b]).to_string(),
                 _ => json!([read_a, target_note, read_b]).to_string(),
             };
-            let resp = http::post(port, &body, hv.as_deref());
-            let (status, text) = match resp {
-                Ok(x) => x,
-                Err(e) => (0, e),
+            let transport = case["transport"].as_str().unwrap_or("http");
+            let (status, text) = if transport == "ws" {
+                match http::ws_exchange(port, &body, hv.as_deref(), form != "notification") {
+                    // one request frame has at most one reply frame (a batch is answered by one array)
+                    Ok((st, frames)) => (st, frames.into_iter().next().unwrap_or_default()),
+                    Err(e) => (0, e),
+                }
+            } else {
+                match http::post(port, &body, hv.as_deref()) {
+                    Ok(x) => x,
+                    Err(e) => (0, e),
+                }
             };
+            if transport == "ws" && status != 101 {
+                violations.push(json!({"case": case, "reply": "no-upgrade", "changed": false,
+                    "why": [format!("the WebSocket upgrade was answered with http {}", status)], "body": text.chars().take(300).collect::<String>()}));
+                continue;
+            }
             let parsed: Value = serde_json::from_str(&text).unwrap_or(Value::Null);
             let mut reads_ok = true;
             let reply = if form.starts_with("batch") {
